@@ -295,6 +295,12 @@ func SetAttrString(self Object, key string, value Object) (Object, error) {
 		return res, err
 	}
 
+	// Built in types are shared by all the contexts so, as in
+	// CPython, their attributes can't be changed
+	if t, ok := self.(*Type); ok && t.isBuiltinType() {
+		return nil, ExceptionNewf(TypeError, "can't set attributes of built-in/extension type '%s'", t.Name)
+	}
+
 	// Otherwise set the attribute in the instance dictionary if
 	// possible
 	if I, ok := self.(IGetDict); ok {
@@ -338,6 +344,12 @@ func DeleteAttrString(self Object, key string) error {
 		return err
 	} else if _, ok, err := TypeCall1(self, "__delattr__", String(key)); ok {
 		return err
+	}
+
+	// Built in types are shared by all the contexts so, as in
+	// CPython, their attributes can't be changed
+	if t, ok := self.(*Type); ok && t.isBuiltinType() {
+		return ExceptionNewf(TypeError, "can't set attributes of built-in/extension type '%s'", t.Name)
 	}
 
 	// Otherwise delete the attribute from the instance dictionary
